@@ -627,7 +627,25 @@ class EligibilityMonitor(Monitor):
                 # application published a forced state for these processes
                 key = 'C04/node-overload:own-request-dropped-on-foreign-forced-state'
             elif app['managed'] and app.get('distribution', 'ALL_INSTANCES') != 'ALL_INSTANCES':
-                key = 'C04/node-overload:preassigned-restricted-distribution'
+                # known mechanism: the load is not validated again when each process of the plan is started, so
+                # processes of ANOTHER application started on that node since the plan began overload it. Its cause
+                # is tested: such a start request (from anybody) exists since the first request of this plan
+                mine = [r['t'] for r in tr.requests if r['sender'] == inst.nick and r['inc'] == inst.inc and
+                        r['namespec'].split(':')[0] == app_name and r['epoch'] == req['epoch']]
+                t0 = min(mine + [w.now])
+                foreign_since = [r for r in tr.requests if r['namespec'].split(':')[0] != app_name and
+                                 self.node_of.get(r['target']) == node and r['t'] >= t0 - 2 * TICK]
+                ek = (inst.nick, inst.inc, app_name, req['epoch'])
+                if run.prog_of(namespec)[1].get('start_sequence', 0) == 0 and ek in tr.process_epochs and \
+                        ek not in tr.queued_epochs:
+                    # the start of ONE process that is outside the start sequence of its non-distributed application,
+                    # not joined to a job in progress: the instance is chosen for the load of the start sequence of
+                    # the application (get_start_sequence_expected_load), in which this process does not count
+                    key = 'C04/node-overload:single-process-outside-the-start-sequence-of-a-non-distributed-application'
+                elif foreign_since:
+                    key = 'C04/node-overload:preassigned-restricted-distribution'
+                else:
+                    key = 'C04/node-overload:non-distributed-application-overloads-its-own-node'
             else:
                 key = 'C04/node-overload'
             self.violate(key, f'start request {where}: node {node} load = {loads.get(node, 0)} running + '
